@@ -81,12 +81,15 @@ def ispair(r):
 
 
 # ---------------------------------------------------------------- saturation line
-def sat_line(I, ctx, n):
+def sat_line(I, ctx, n, ts=None, ps=None):
     name = 'sat-tsat-inverse'
     tc = T_CRIT_K - TC_K
-    grid = [0.01 + (tc - 0.01) * k / (n - 1) for k in range(n)]
-    grid[-1] = tc
-    ts = [0.01, tc, math.nextafter(tc, 0.0), math.nextafter(0.01, 1.0)] + grid + [ctx.rng.uniform(0.01, tc) for _ in range(n)]
+    explicit = ts is not None or ps is not None
+    if not explicit:
+        grid = [0.01 + (tc - 0.01) * k / (n - 1) for k in range(n)]
+        grid[-1] = tc
+        ts = [0.01, tc, math.nextafter(tc, 0.0), math.nextafter(0.01, 1.0)] + grid + [ctx.rng.uniform(0.01, tc) for _ in range(n)]
+    ts = ts or []
     worst = 0.0
     for t in ts:
         ctx.count(('sat', t))
@@ -104,8 +107,10 @@ def sat_line(I, ctx, n):
         if abs(t2 - t) > TOL_TSAT_K:
             ctx.failure(name, 'tsat:not-inverse', {'fn': 'tsat(sat(t))', 't': t}, 'tsat(sat(t))=%r' % float(t2), '|tsat(sat(t)) - t| <= %g K' % TOL_TSAT_K)
     plo, phi = spec_psat(0.01), P_CRIT
-    ps = [plo * 1.0000001, phi] + [math.exp(math.log(plo * 1.0000001) + (math.log(phi) - math.log(plo * 1.0000001)) * k / (n - 1)) for k in range(n)]
-    ps = [min(p, phi) for p in ps]
+    if not explicit:
+        ps = [plo * 1.0000001, phi] + [math.exp(math.log(plo * 1.0000001) + (math.log(phi) - math.log(plo * 1.0000001)) * k / (n - 1)) for k in range(n)]
+        ps = [min(p, phi) for p in ps]
+    ps = ps or []
     worstp = 0.0
     for p in ps:
         ctx.count(('tsat', p))
@@ -126,9 +131,12 @@ def sat_line(I, ctx, n):
 
 
 # ---------------------------------------------------------------- B23
-def b23_line(I, ctx, n):
+def b23_line(I, ctx, n, ts=None, ps=None):
     name = 'b23-inverse'
-    ts = [350.0, 590.0] + [350.0 + 240.0 * k / (n - 1) for k in range(n)] + [ctx.rng.uniform(350.0, 590.0) for _ in range(n)]
+    explicit = ts is not None or ps is not None
+    if not explicit:
+        ts = [350.0, 590.0] + [350.0 + 240.0 * k / (n - 1) for k in range(n)] + [ctx.rng.uniform(350.0, 590.0) for _ in range(n)]
+    ts = ts or []
     worst = 0.0
     for t in ts:
         ctx.count(('b23', t))
@@ -145,7 +153,8 @@ def b23_line(I, ctx, n):
             ctx.failure(name, 'b23p:differs-from-release', {'fn': 'b23p', 't': t}, repr(float(p)), 'IF97 eq. 5: %r' % spec_b23p(t))
     plo, phi = spec_b23p(350.0), 100e6
     worstp = 0.0
-    ps = [plo, phi] + [plo + (phi - plo) * k / (n - 1) for k in range(n)]
+    if not explicit: ps = [plo, phi] + [plo + (phi - plo) * k / (n - 1) for k in range(n)]
+    ps = ps or []
     for p in ps:
         ctx.count(('b23p', p))
         t = call(I.b23t, p)
@@ -376,11 +385,12 @@ def monotone_and_visc(I, ctx, s1, s2, s3):
 
 
 # ---------------------------------------------------------------- region classifier
-def classifier(I, ctx, n):
+def classifier(I, ctx, n, pts=None):
     name = 'region-classifier'
     rng = ctx.rng
-    pts = []
-    for k in range(n):
+    explicit = pts is not None
+    pts = pts or []
+    for k in range(0 if explicit else n):
         r = rng.random()
         t = rng.uniform(0.01, 800.0)
         p = rng.uniform(1.0, 100e6)
@@ -414,7 +424,7 @@ def classifier(I, ctx, n):
         if got == 2 and not ispair(call(I.supst, t, p)):
             ctx.failure(name, 'region:equation-undefined', {'fn': 'supst', 't': t, 'p': p}, repr(call(I.supst, t, p)), 'supst defined in region 2')
     # on the curves themselves: the chosen region must be closed there
-    for k in range(max(20, n // 50)):
+    for k in range(0 if explicit else max(20, n // 50)):
         t = rng.uniform(0.01, 350.0)
         p = call(I.sat, t)
         got = call(I.region, t, p) if isnum(p) else None
@@ -431,13 +441,18 @@ def classifier(I, ctx, n):
 
 
 # ---------------------------------------------------------------- boundary consistency
-def boundaries(I, ctx, n):
+def boundaries(I, ctx, n, tsat_list=None, p13=None, t23=None):
     name = 'boundary-consistency'
     rng = ctx.rng
     worst = {'dv13': 0.0, 'dh13': 0.0, 'dv23': 0.0, 'dh23': 0.0, 'dps': 0.0}
+    explicit = not (tsat_list is None and p13 is None and t23 is None)
+    if not explicit:
+        tsat_list = [0.01 + (T_CRIT_K - TC_K - 0.01) * k / (n - 1) for k in range(n)]
+        ps_ = spec_psat(350.0)
+        p13 = [ps_ + (100e6 - ps_) * (k / (n - 1) if k % 2 == 0 else rng.random()) for k in range(n)]
+        t23 = [350.0 + 240.0 * (k / (n - 1) if k % 2 == 0 else rng.random()) for k in range(n)]
     # saturation curve of the module against the release (0.05 % stated for p_s)
-    for k in range(n):
-        t = 0.01 + (T_CRIT_K - TC_K - 0.01) * k / (n - 1)
+    for t in (tsat_list or []):
         ps = call(I.sat, t)
         ctx.count(('ps', t))
         if not isnum(ps): continue          # reported by sat_line
@@ -447,8 +462,7 @@ def boundaries(I, ctx, n):
             ctx.failure(name, 'sat:differs-from-release', {'fn': 'sat', 't': t}, repr(float(ps)), 'IF97 eq. 30 within 0.05 %%: %r' % spec_psat(t))
     # 1/3 at 350 degC
     ps = spec_psat(350.0)
-    for k in range(n):
-        p = ps + (100e6 - ps) * (k / (n - 1) if k % 2 == 0 else rng.random())
+    for p in (p13 or []):
         ctx.count(('b13', p))
         r1 = call(I.cowat, 350.0, p)
         d3 = solve_d3(I, 350.0, max(p, ps * (1 + 1e-9)))
@@ -464,8 +478,7 @@ def boundaries(I, ctx, n):
             ctx.failure(name, 'boundary13:inconsistent', {'fn': 'cowat/super', 't': 350.0, 'p': p},
                         'rho1=%r rho3=%r (dv/v=%.3g), h3-h1=%.4g J/kg' % (d1, d3, dv, dh), 'dv/v <= 0.05 %, |dh| <= 200 J/kg (IF97 section 10)')
     # 2/3 along B23
-    for k in range(n):
-        t = 350.0 + 240.0 * (k / (n - 1) if k % 2 == 0 else rng.random())
+    for t in (t23 or []):
         p = min(spec_b23p(t), 100e6)
         ctx.count(('b23c', t))
         r2 = call(I.supst, t, p)
@@ -483,7 +496,7 @@ def boundaries(I, ctx, n):
         if dv > TOL_DV or dh > TOL_DH:
             ctx.failure(name, 'boundary23:inconsistent', {'fn': 'supst/super', 't': t, 'p': p},
                         'rho2=%r rho3=%r (dv/v=%.3g), h3-h2=%.4g J/kg' % (d2, d3, dv, dh), 'dv/v <= 0.05 %, |dh| <= 200 J/kg (IF97 section 10)')
-    ctx.oracle_cases(name, 3 * n, **worst)
+    ctx.oracle_cases(name, len(tsat_list or []) + len(p13 or []) + len(t23 or []), **worst)
 
 
 def sweep(I, ctx, scale=1):
@@ -502,3 +515,100 @@ def sweep(I, ctx, scale=1):
     monotone_and_visc(I, ctx, s1, s2, s3)
     classifier(I, ctx, 4000 * scale)
     boundaries(I, ctx, 120 * scale)
+
+
+# ---------------------------------------------------------------- deep search and replay
+def corner_states(I, rng, n):
+    """States in the corners and along the edges of regions 1, 2, 3 (where one high-power term of
+    a sum dominates: extreme reduced pressure / temperature)."""
+    s1, s2 = [], []
+    for _ in range(n):
+        t = rng.choice([rng.uniform(0.01, 3.0), rng.uniform(345.0, 350.0), rng.uniform(0.01, 350.0)])
+        ps = spec_psat(t)
+        p = rng.choice([ps * (1 + rng.random() * 1e-2), 100e6 * (1 - rng.random() * 1e-2), rng.uniform(ps, 100e6)])
+        s1.append((t, p))
+        t = rng.choice([rng.uniform(0.01, 5.0), rng.uniform(340.0, 360.0), rng.uniform(585.0, 595.0), rng.uniform(790.0, 800.0), rng.uniform(0.01, 800.0)])
+        pm = upper_p_region2(t)
+        p = rng.choice([pm * (1 - rng.random() * 1e-2), 10 ** rng.uniform(0, 3), rng.uniform(1.0, pm)])
+        s2.append((t, min(p, pm)))
+    return s1, s2
+
+
+def deep_sweep(I, ctx, rounds):
+    rng = ctx.rng
+    for r in range(rounds):
+        s1, s2 = corner_states(I, rng, 1500)
+        s3 = gen_region3(I, rng, 600)
+        identity_gibbs(I, ctx, 'cowat', s1)
+        identity_gibbs(I, ctx, 'supst', s2)
+        identity_helmholtz(I, ctx, s3)
+        monotone_and_visc(I, ctx, s1, s2, s3)
+        boundaries(I, ctx, 400)
+        classifier(I, ctx, 4000)
+        sat_line(I, ctx, 500)
+        b23_line(I, ctx, 300)
+        if ctx.new_failures: return
+
+
+class MiniCtx:
+    """records failures of a single clause evaluation (replay)"""
+    def __init__(self):
+        import random
+        self.rng = random.Random(0); self.fails = []; self.oracle = {}
+    def count(self, *a, **k): pass
+    def oracle_cases(self, *a, **k): pass
+    def sample(self, *a, **k): pass
+    def failure(self, name, key, inp, observed, required): self.fails.append((key, inp, observed, required))
+
+
+def replay_one(I, key, inp):
+    """Re-evaluate the clause that failed on the recorded input; True iff it still fails."""
+    m = MiniCtx()
+    fn = inp.get('fn', '')
+    if key.startswith(('tsat:', 'sat:')) and 'differs' not in key:
+        if 't' in inp: sat_line(I, m, 0, ts=[inp['t']], ps=[])
+        else: sat_line(I, m, 0, ts=[], ps=[inp['p']])
+    elif key.startswith('sat:differs'):
+        boundaries(I, m, 0, tsat_list=[inp['t']], p13=[], t23=[])
+    elif key.startswith(('b23:', 'b23p:')):
+        if 't' in inp: b23_line(I, m, 0, ts=[inp['t']], ps=[])
+        else: b23_line(I, m, 0, ts=[], ps=[inp['p']])
+    elif key.startswith('region:'):
+        if 'on-' in key:
+            got = call(I.region, inp['t'], inp['p'])
+            ok = got in ((1, 2) if 'saturation' in key else (2, 3))
+            if not ok: m.fails.append((key, inp, repr(got), ''))
+        else:
+            classifier(I, m, 0, pts=[(inp['t'], inp['p'])])
+            if key.endswith('equation-undefined') and not m.fails:
+                r = call(getattr(I, fn), inp['t'], inp['p'])
+                if not ispair(r): m.fails.append((key, inp, repr(r), ''))
+    elif key.startswith('boundary13'):
+        boundaries(I, m, 0, tsat_list=[], p13=[inp['p']], t23=[])
+    elif key.startswith('boundary23'):
+        boundaries(I, m, 0, tsat_list=[], p13=[], t23=[inp['t']])
+    elif key.startswith('visc:'):
+        mu = call(I.visc, inp['d'], inp['t'])
+        if not (isnum(mu) and mu > 0): m.fails.append((key, inp, repr(mu), 'visc > 0'))
+    elif key.startswith('super:'):
+        if 'd2' in inp:
+            ra, rb = call(I.super, inp['d'], inp['t']), call(I.super, inp['d2'], inp['t'])
+            if not (ispair(ra) and ispair(rb)) or not ((float(rb[0]) - float(ra[0])) * (inp['d2'] - inp['d']) > 0):
+                m.fails.append((key, inp, '%r, %r' % (ra, rb), 'pressure increasing with density'))
+        else:
+            identity_helmholtz(I, m, [(inp['d'], inp['t'], None)])
+    elif key.startswith(('cowat:', 'supst:')):
+        f = key.split(':')[0]
+        if 'p2' in inp:
+            ra, rb = call(getattr(I, f), inp['t'], inp['p']), call(getattr(I, f), inp['t'], inp['p2'])
+            if not (ispair(ra) and ispair(rb)) or not (float(rb[0]) > float(ra[0]) > 0):
+                m.fails.append((key, inp, '%r, %r' % (ra, rb), 'density increasing with pressure'))
+        else:
+            identity_gibbs(I, m, f, [(inp['t'], inp['p'])])
+    else:
+        print('replay: unknown finding key %r' % key)
+        return True
+    for (k, i, obs, req) in m.fails:
+        print('replay: %s on %r -> %s ; required: %s' % (k, i, obs, req))
+    if not m.fails: print('replay: the clause holds on %r now' % (inp,))
+    return bool(m.fails)
